@@ -228,11 +228,11 @@ def advance (d : D) (target : Nat) : Nat → D
   | n + 1 =>
     let due := d.conns.filter fun c => c.s.hb != .done && c.s.tickAt ≤ target
     match due with
-    | [] => { d with now := target, conns := d.conns.map fun c => { c with s := { c.s with now := target } } }
+    | [] => { d with now := target, conns := d.conns.map fun c => { c with s := fireL c.s [.advance (target - c.s.now)] } }
     | c0 :: rest =>
       let c := rest.foldl (fun best c => if c.s.tickAt < best.s.tickAt then c else best) c0
       let t := c.s.tickAt
-      let d := { d with now := t, conns := d.conns.map fun c => { c with s := { c.s with now := t } } }
+      let d := { d with now := t, conns := d.conns.map fun c => { c with s := fireL c.s [.advance (t - c.s.now)] } }
       match findConn d c.k with
       | none => d
       | some c =>
@@ -268,7 +268,7 @@ def stepCore (d : D) (line : String) : D × String :=
     (d, "ok")
   | some "open" =>
     if (findConn d k).isSome || k == 0 then (d, "none") else
-    let s0 : St := { init with now := d.now, tickAt := d.now + hbMs }
+    let s0 : St := initAt d.now
     let d := { d with conns := d.conns ++ [{ k := k, s := s0 }], queue := d.queue ++ [(k, .add)] }
     let d := settleAll d
     (d, showObs d k "")
